@@ -41,6 +41,10 @@ CHECKS = {
                 technique="fault enumeration over well-formed images on the real size_bytes_checked: every truncation point and every corruption of every blockLength/numInGroup/length instance, in a release build on an exact-size buffer ending at a PROT_NONE page with a CPU budget; reference = structural walk with unbounded integers",
                 text="For every image of the bounded space: every n in 0..len (+ trailing junk) and every header-field instance overwritten with 0, 1, fit-1, fit+1, max/2+1, max-1, max; size_bytes_checked(message | top-level group, n) must return (no fault = no read at offset >= n, no budget overrun = work bounded by n) and its (valid, size) must equal the reference walk's. Four genuine defect classes are recorded as known findings; every other disagreement is a violation.",
                 note="Trusted: kernel guard pages, ITIMER_VIRTUAL budget (250 ms for microseconds of legitimate work), the reference walk."),
+    "C08": dict(category="exploration", design_ref="DESIGN.md 5 / C08",
+                technique="bounded-exhaustive enumeration of (valid base schema x applicable position x rule-breaking edit) with the valid boundary twin next to each edit, each run through the tree's sbeppc; verdicts from a rule catalogue written from the SBE spec and the documentation",
+                text="For each base (kinds, catalogue shapes, header layouts) every position where a rule applies gets the rule-breaking value and its valid twin (min-1/min offset, size-1/size blockLength, max+1/max for every primitive and attribute, width/width-1 choice, unknown/wrong-kind/cyclic references, int16[2]/uint8[2], missing/array/constant header members, invalid/keyword/duplicate names, duplicate ids, member order). Reject <=> non-zero exit with a located diagnostic; accept <=> exit 0 with an output tree.",
+                note="Trusted: the rule catalogue (vlib/enum/ruleedits.py). Rules sbeppc documents as not enforced (non-integer header members) are run for totality only."),
     "C09": dict(category="exploration", design_ref="DESIGN.md 5 / C09",
                 technique="bounded-exhaustive enumeration of the complete single-mutation neighbourhood of seed schemas (structure-aware XML operators x token set), all argument vectors up to a length bound, include graphs and raw inputs, each executed on a sanitized (ASan+UBSan, asserts on) sbeppc with a time limit; outcome classification",
                 text="Every mutant is run once into a fresh output directory: allowed outcomes are exit 0, or a non-zero exit with an `Error` diagnostic and no file left behind. Death by signal, sanitizer reports, failed assertions, uncaught exceptions, timeouts, silent non-zero exits and leftovers are violations, identified by their call site (exception type / assertion / sanitizer frame).",
